@@ -53,8 +53,8 @@ static int dim(int y, int m) { static const int d[] = {31, 28, 31, 30, 31, 30, 3
 struct Gen
 {
 	Rng& rng;
-	bool subms;
-	Gen(Rng& r, bool s) : rng(r), subms(s) {}
+	bool avoidSubMs;
+	Gen(Rng& r, bool a) : rng(r), avoidSubMs(a) {}
 
 	// input generation only: a day number near the first day of a "round" year (never used as an expected value)
 	long long nearYearEdge()
@@ -80,13 +80,15 @@ struct Gen
 		i.sod = rng.chance(60) ? ss[rng.below(sizeof ss / sizeof ss[0])] : rng.below(86400);
 		int r = rng.below(100);
 		if (r < 55) i.us = 0;
-		else if (r < 75 || !subms) i.us = 1000 * (rng.chance(40) ? (rng.chance(50) ? 999 : 1) : rng.below(1000));
+		else if (r < 75) i.us = 1000 * (rng.chance(40) ? (rng.chance(50) ? 999 : 1) : rng.below(1000));
 		else
 		{
 			// off the millisecond grid, at least 150 us away from the rounding boundary x.xxx5
 			int ms = rng.chance(50) ? 999 : rng.below(1000);
 			int sub = rng.chance(50) ? rng.range(650, 999) : rng.range(1, 350);
 			i.us = ms * 1000 + sub;
+			// open finding SubMsBeforeMidnight: exactly the instants less than 0.5 ms before midnight are not generated
+			if (avoidSubMs && i.sod == 86399 && i.us >= 999500) i.us = 999000 + rng.range(1, 350);
 		}
 		return i;
 	}
@@ -184,7 +186,7 @@ int main(int argc, char** argv)
 	Args args(argc, argv);
 	Rng rng(args.seed);
 	Log log(args.out);
-	Gen gen(rng, !args.avoid.count("SubMsBeforeMidnight"));
+	Gen gen(rng, args.avoid.count("SubMsBeforeMidnight") > 0);
 	static const char* fmtName[] = {"LONG", "SHORT", "FULL", "HTTP"};
 	static const Date::Format fmtVal[] = {Date::LONG, Date::SHORT, Date::FULL, Date::HTTP};
 	log.line("{\"e\":\"reset\"}");
